@@ -5,17 +5,27 @@ argument list runs to end of line (-stdin / -transformed-by of a program start a
 FILE-CONDITION per line, reserved words are quoted when they are meant as strings, no comment lines inside
 instructions, no '#', no backslash, no quote characters inside values.
 """
-from vlib.ref.c08_symbols import str_text, use_name
+from vlib.ref.c08_symbols import str_text, use_name, ENV_PREFIX
 
 RESERVED = {'(', ')', '[', ']', '{', '}', '=', '|', ':', '!', '&&', '||', 'file', 'dir', '+='}
 _NAKED_OK = set('abcdefghijklmnopqrstuvwxyzABCDEFGHIJKLMNOPQRSTUVWXYZ0123456789_./:@[]+-,=')
 
 PROBE_CMD = '% {PY} {PROBE} {OBS}/'
+SHELL_CMD = '$ printf \'%%s|\' "%s" >> {OBS}/_%s'
+
+
+HERE_DOC_MARKER = 'EOF'
 
 
 def r_str(s) -> str:
+    """The token.  `:>` and here-document forms (RICH-STRING) must be the last thing on their line; a here-document
+    contains new-lines: the lines that follow the line on which it starts."""
     text = str_text(s)
     q = s['q']
+    if q == 't':
+        return ':> ' + text
+    if q == 'd':
+        return '<<%s\n%s\n%s' % (HERE_DOC_MARKER, text, HERE_DOC_MARKER)
     if q == 'h':
         return "'" + text + "'"
     if q == 'n':
@@ -74,6 +84,9 @@ def r_expr(t, e) -> str:
         return _r_ref(e)
     if 'lit' in e:
         return _LITS[t][e['lit']]
+    if e.get('c') == 'run':
+        # PGM-AND-ARGS runs to END-OF-LINE: the generators put this form last on the line only
+        return 'run ' + '\n'.join(r_program(e['p']))
     if 'op' in e:
         op = e['op']
         if op == 'paren':
@@ -126,6 +139,8 @@ def r_expr(t, e) -> str:
 
 
 def r_ts(ts) -> str:
+    if ts.get('c') == 'pgm':
+        return '-stdout-from ' + '\n'.join(r_program(ts['p']))
     s = '@[%s]@' % ts['ref'] if 'ref' in ts else r_str(ts['s'])
     if ts.get('t') is not None:
         s += ' -transformed-by ' + _operand('text-transformer', ts['t'])
@@ -136,6 +151,9 @@ def r_program(p, indent='  '):
     """-> list of lines"""
     if p['c'] == 'probe':
         first = PROBE_CMD + p['o']
+    elif p['c'] == 'shell':
+        # SHELL-COMMAND-LINE: the rest of the line, one string.  Values never contain " $ ` or a backslash.
+        first = SHELL_CMD % (str_text(p['s']), p['o'])
     else:
         first = '@ ' + p['ref']
     args = r_list(p['a'])
@@ -243,7 +261,16 @@ def r_item(item, phase, idx):
         return ['dir %s = %s' % (use_name(phase, idx), v[0])] + v[1:]
     if k == 'run':
         v = r_program(item['p'])
+        p = item['p']
+        if item.get('bare') and p['c'] in ('probe', 'shell') and p.get('in') is None and p.get('t') is None:
+            return v  # the instructions `%` and `$` (they take neither -stdin nor -transformed-by)
         return ['run ' + v[0]] + v[1:]
+    if k == 'env':
+        return ['env %s%s = %s' % (ENV_PREFIX, use_name(phase, idx), r_ts(item['s']))]
+    if k == 'stdin':
+        return ['stdin = ' + r_ts(item['s'])]
+    if k == 'timeout':
+        return ['timeout = ' + r_str(item['i'])]
     if k == 'assert':
         return _r_assert(item['t'], item['e'])
     raise ValueError(k)
@@ -253,9 +280,28 @@ MARK_FIRST = 'S'
 MARK_LAST = 'C'
 
 
+def pieces(case):
+    """-> [(phase, first item index, end item index, is first piece, is last piece)] in file order"""
+    order = list(case['order'])
+    out = []
+    seen = {}
+    for ph in order:
+        if ph == 'act':
+            out.append((ph, 0, 0, True, True))
+            continue
+        n = len(case['items'].get(ph, []))
+        total = order.count(ph)
+        cuts = [0] + sorted(min(n, c) for c in (case.get('cuts') or {}).get(ph, []))[:total - 1]
+        cuts += [n] * (total + 1 - len(cuts))
+        k = seen.get(ph, 0)
+        seen[ph] = k + 1
+        out.append((ph, cuts[k], cuts[k + 1] if k < total - 1 else n, k == 0, k == total - 1))
+    return out
+
+
 def render(case) -> str:
     lines = []
-    for ph in case['order']:
+    for ph, lo, hi, first, last in pieces(case):
         if ph == 'act':
             if case.get('act') is not None:
                 lines.append('[act]')
@@ -263,11 +309,12 @@ def render(case) -> str:
                 lines.append('')
             continue
         lines.append('[%s]' % ph)
-        if ph == 'setup':
+        if ph == 'setup' and first:
             lines.append('$ echo %s >> {MARKERS}' % MARK_FIRST)
-        for i, it in enumerate(case['items'].get(ph, [])):
-            lines.extend(r_item(it, ph, i))
-        if ph == 'cleanup':
+        items = case['items'].get(ph, [])
+        for i in range(lo, hi):
+            lines.extend(r_item(items[i], ph, i))
+        if ph == 'cleanup' and last:
             lines.append('$ echo %s >> {MARKERS}' % MARK_LAST)
         lines.append('')
     return '\n'.join(lines) + '\n'
